@@ -7,19 +7,23 @@
 package server
 
 // ---- (1) SCAN-THEN-REMOVE --------------------------------------------------------------------
-// The blob file a digest names (what GetBlobsPath computes for an accepted digest).
-//@ spec func blobpath(d string) string = fpjoin3(envconfig.Models(), "blobs", sreplaceall(d, ":", "-"))
+// bname(d): the blob FILE NAME a digest refers to; blobpath(d): the file (what GetBlobsPath computes
+// for an accepted digest). Both spellings "sha256:<hex>" and "sha256-<hex>" are accepted and name
+// one file, so "data still referenced by another model" is stated over blob names, not over
+// digest strings.
+//@ spec func bname(d string) string = sreplaceall(d, ":", "-")
+//@ spec func blobpath(d string) string = fpjoin3(envconfig.Models(), "blobs", bname(d))
 
 // Ghost code of Layer.Remove: ghost_hit == 1 iff a manifest yielded so far by the range over the
 // scan result (including the one of the current iteration: the assignment sits at the top of the
 // loop body, before the inner loop) has a layer or config whose digest STRING equals l.Digest;
-// ghost_phit is the same over blob PATHS (blobpath(digest) equal: the two name one file).
+// ghost_phit is the same over blob NAMES (bname(digest) equal: the two name one file).
 //@ func (*Layer).Remove
 //@   ghost-at after call Manifests #1 : ghost_hit := 0
 //@   ghost-at after call Manifests #1 : ghost_phit := 0
-//@   assume-at call append #1 : fresh(m) && fresh(m.Layers)   -- the scan result is parsed from disk into new objects by Manifests -> ParseNamedManifest (json.Decode into a new Manifest): it shares no memory with *l
+//@   assume-at call append #1 : fresh(m) && (cap(m.Layers) == 0 || fresh(m.Layers))   -- the scan result is parsed from disk into new objects by Manifests -> ParseNamedManifest (json.Decode into a new Manifest): it shares no memory with *l
 //@   ghost-at call append #1 : ghost_hit := ite(ghost_hit == 1 || m.Config.Digest == l.Digest || (exists j int :: 0 <= j && j < len(m.Layers) && m.Layers[j].Digest == l.Digest), 1, 0)
-//@   ghost-at call append #1 : ghost_phit := ite(ghost_phit == 1 || blobpath(m.Config.Digest) == blobpath(l.Digest) || (exists j int :: 0 <= j && j < len(m.Layers) && blobpath(m.Layers[j].Digest) == blobpath(l.Digest)), 1, 0)
+//@   ghost-at call append #1 : ghost_phit := ite(ghost_phit == 1 || bname(m.Config.Digest) == bname(l.Digest) || (exists j int :: 0 <= j && j < len(m.Layers) && bname(m.Layers[j].Digest) == bname(l.Digest)), 1, 0)
 //@   assume-at call GetBlobsPath : ErrInvalidDigestFormat != nil   -- package-level errors.New value, assigned once at package init, never reassigned
 //@   loop 1 invariant ghost_hit == 0
 //@   loop 1 invariant ghost_phit == 0
@@ -34,27 +38,27 @@ package server
 // deleteUnusedLayers: witd() is an arbitrary fixed digest string (uninterpreted constant: what is
 // proved about it holds for every digest). ghost_ref == 1 iff a manifest of the scan whose loop
 // iteration has reached its last statement has a layer or config whose digest STRING is witd();
-// ghost_pref the same over blob PATHS. Loops: 1 manifests of the scan  2 its layers  3 keys left.
+// ghost_pref the same over blob NAMES. Loops: 1 manifests of the scan  2 its layers  3 keys left.
 //@ spec func witd() string
 //@ func deleteUnusedLayers
 //@   assume-at call GetBlobsPath : ErrInvalidDigestFormat != nil   -- package-level errors.New value, assigned once at package init, never reassigned
 //@   ghost-at after call Manifests #1 : ghost_ref := 0
 //@   ghost-at after call Manifests #1 : ghost_pref := 0
 //@   ghost-at call delete #2 : ghost_ref := ite(ghost_ref == 1 || manifest.Config.Digest == witd() || (exists j int :: 0 <= j && j < len(manifest.Layers) && manifest.Layers[j].Digest == witd()), 1, 0)
-//@   ghost-at call delete #2 : ghost_pref := ite(ghost_pref == 1 || blobpath(manifest.Config.Digest) == blobpath(witd()) || (exists j int :: 0 <= j && j < len(manifest.Layers) && blobpath(manifest.Layers[j].Digest) == blobpath(witd())), 1, 0)
+//@   ghost-at call delete #2 : ghost_pref := ite(ghost_pref == 1 || bname(manifest.Config.Digest) == bname(witd()) || (exists j int :: 0 <= j && j < len(manifest.Layers) && bname(manifest.Layers[j].Digest) == bname(witd())), 1, 0)
 //@   loop 1 invariant ghost_ref == 1 ==> !has(deleteMap, witd())
 //@   loop 1 invariant forall s string :: has(deleteMap, s) ==> old(has(deleteMap, s))
-//@   loop 1 invariant ghost_pref == 1 ==> forall s string :: has(deleteMap, s) ==> blobpath(s) != blobpath(witd())
+//@   loop 1 invariant ghost_pref == 1 ==> forall s string :: has(deleteMap, s) ==> bname(s) != bname(witd())
 //@   loop 2 invariant ghost_ref == 1 ==> !has(deleteMap, witd())
 //@   loop 2 invariant forall s string :: has(deleteMap, s) ==> old(has(deleteMap, s))
 //@   loop 2 invariant forall j int :: 0 <= j && j <= rangeindex ==> !has(deleteMap, manifest.Layers[j].Digest)
 //@   loop 3 invariant ghost_ref == 1 ==> !has(deleteMap, witd())
 //@   loop 3 invariant forall s string :: has(deleteMap, s) ==> old(has(deleteMap, s))
-//@   loop 3 invariant ghost_pref == 1 ==> forall s string :: has(deleteMap, s) ==> blobpath(s) != blobpath(witd())
+//@   loop 3 invariant ghost_pref == 1 ==> forall s string :: has(deleteMap, s) ==> bname(s) != bname(witd())
 //@   assert-at call os.Remove #1 : old(has(deleteMap, k))
 //@   assert-at call os.Remove #1 : ghost_ref == 1 ==> k != witd()
 //@   assert-at call os.Remove #1 : arg0 == blobpath(k)
-//@   assert-at call os.Remove #1 : ghost_pref == 1 ==> arg0 != blobpath(witd())
+//@   assert-at call os.Remove #1 : ghost_pref == 1 ==> bname(k) != bname(witd())
 
 // ---- (3) CASE-INSENSITIVE CANONICALISATION ---------------------------------------------------
 // strings.EqualFold(s, t) <==> sfoldeq(s, t) (trusted, types/model block); simple case folding
@@ -115,7 +119,7 @@ package server
 //@ extern func errors.Is
 //@   pure
 //@ extern func io/fs.(DirEntry).Name
-//@   pure
+//@   pure reads none
 
 // Manifest.Remove: the first effect is os.Remove(m.filepath); directories are pruned, and nil is
 // returned, only after that removal returned nil.
@@ -155,6 +159,7 @@ package server
 //@   assert-at call os.Rename #1 : ghost_tmp == 1 && ghost_copied == 1 && ghost_closed == 1
 //@   assert-at call os.Rename #1 : arg0 == temp.Name() && arg1 == blobpath(digest)
 //@   assert-at call os.Chmod #1 : arg0 == blobpath(digest)
+//@   assert-at call os.Remove : arg0 == temp.Name()
 //@   ghost-at after call os.Remove : ghost_cleaned := 1
 //@   assert-at return : ghost_tmp == 1 ==> ghost_cleaned == 1
 
@@ -166,14 +171,19 @@ package server
 //@   ghost-at after call os.Stat #1 : ghost_stat := ite(result.1 == nil, 1, 0)
 //@   assert-at return #4 : ghost_stat == 1 && result.0.Digest == digest && result.1 == nil
 
-// PruneLayers: a directory entry is removed directly only if GetBlobsPath refused its name (the
-// digest pattern failed); every other entry goes to deleteUnusedLayers under a name that passed
-// the pattern. Loop 1: directory entries.
+// PruneLayers: a directory entry is removed directly only if GetBlobsPath refused its name and
+// errors.Is(err, ErrInvalidDigestFormat) held (the digest pattern failed: temp files, -partial
+// debris); every other entry goes to deleteUnusedLayers under a name of digest shape. Loop 1:
+// directory entries.
 //@ func PruneLayers
 //@   assume-at call GetBlobsPath : ErrInvalidDigestFormat != nil   -- package-level errors.New value, assigned once at package init, never reassigned
 //@   ghost-at entry : ghost_refused := 0
+//@   ghost-at entry : ghost_badformat := 0
 //@   ghost-at after call GetBlobsPath #2 : ghost_refused := ite(result.1 != nil, 1, 0)
-//@   assert-at call os.Remove #1 : ghost_refused == 1
+//@   ghost-at after call errors.Is #1 : ghost_badformat := ite(result, 1, 0)
+//@   assert-at call errors.Is #1 : arg1 == ErrInvalidDigestFormat
+//@   assert-at call os.Remove #1 : ghost_refused == 1 && ghost_badformat == 1
+//@   assert-at call os.Remove #1 : arg0 == fpjoin2(p, blob.Name())
 //@   loop 1 invariant forall s string :: has(deleteMap, s) ==> s == "" || digestshape(s)
 //@   assert-at call deleteUnusedLayers #1 : forall s string :: has(deleteMap, s) ==> s == "" || digestshape(s)
 
@@ -226,6 +236,11 @@ package server
 // pruned only after createModel returned nil (new manifest on disk), through RemoveLayers (scan).
 //@ func (*Server).CreateHandler$1
 //@   ghost-at entry : ghost_created := 0
+//@   ghost-at entry : ghost_oldread := 0
+//@   ghost-at after call ParseNamedManifest #1 : ghost_oldread := 1
+//@   assert-at call parseFromModel : ghost_oldread == 1
+//@   assert-at call convertModelFromFiles : ghost_oldread == 1
+//@   assert-at call createModel #1 : ghost_oldread == 1
 //@   assume-at call createModel #1 : fqname(name.Host, name.Namespace, name.Model, name.Tag)   -- C13's concern (store confinement), not decided here: name passed IsValid in CreateHandler and getExistingName only substitutes parts of names that Manifests accepted (n.IsValid()); "every key of the scan result is valid" cannot be stated for a map with a struct key
 //@   ghost-at after call createModel #1 : ghost_created := ite(result == nil, 1, 0)
 //@   assert-at call RemoveLayers #1 : ghost_created == 1 && arg0 == oldManifest
@@ -233,3 +248,19 @@ package server
 // removeLayer (create with an overriding template/system/...): blobs are dropped only through
 // Layer.Remove (scan first).
 //@ func removeLayer$1
+
+// CopyModel touches no blob and writes one manifest: the source is opened before the destination
+// is created (truncated), and a copy onto itself (same manifest path) returns before any effect,
+// so it never truncates its own source.
+//@ func CopyModel
+//@   ghost-at entry : ghost_srcopen := 0
+//@   ghost-at after call os.Open #1 : ghost_srcopen := ite(result.1 == nil, 1, 0)
+//@   assert-at call os.MkdirAll #1 : fpjoin4(src.Host, src.Namespace, src.Model, src.Tag) != fpjoin4(dst.Host, dst.Namespace, dst.Model, dst.Tag)
+//@   assert-at call os.Create #1 : ghost_srcopen == 1 && arg0 == dstpath
+//@   assert-at call os.Create #1 : fpjoin4(src.Host, src.Namespace, src.Model, src.Tag) != fpjoin4(dst.Host, dst.Namespace, dst.Model, dst.Tag)
+
+// Manifests(false) - the corrupt-manifest check of the startup sequence - skips nothing silently:
+// the three places that skip a directory entry (bad path, invalid name, unreadable manifest) are
+// reached only with continueOnError == true; with false each of them returns an error instead.
+//@ func Manifests
+//@   assert-at call log/slog.Warn : continueOnError
